@@ -15,7 +15,9 @@ be delivered late (LateDeliver) and must have no effect. TLC checks the invarian
 are replayed on the real cluster through cluster.RestartSurvivors (harness/cluster/survivors.go) with the tuned DKV
 of the deep arms (flushes + compactions: files exist to be clobbered), replacement ids sorting after (even
 behaviours) or before (odd behaviours) the survivors'. Oracle as everywhere in C01: the state every handler
-invocation is given, every published checkpoint read back, the final state.
+invocation is given, every published checkpoint read back, the final state. Publications are diluted in generation
+(PubDilution) so that snapshot writes stay in flight across kills: a surviving job publishes the checkpoint of the
+previous assembly AFTER it has re-assembled from an older one, and the next recovery loads it.
 """
 import json
 import vlib
@@ -34,12 +36,12 @@ def run_surv(c, m):
         c01_deep.exhaustive(c, m, base, "survivors", ["RestartSame"])
         c01_deep.exhaustive(c, m, dict(base, Overlap=True, MaxKills=1), "survivors + overlapping publications, 1 kill", ["RestartSame", "TickOverlap"])
     need = ("flushes", "compactions", "redeployedInPlace", "redeployedAtAnotherPosition", "replacements", "jobSurvived", "lateDelivered",
-            "restoredWithTables")
+            "restoredWithTables", "publishedAfterRestart")
     n = (60, 30) if quick else (400, 300)
     s = c.seed * 100 + 70
     extra = dict(c01_deep.DKV, Survive=True)
-    m.stage(c, c01_deep.replay_generated, c, m, dict(base, KillJob=True, KillDilution=8, MaxKills=2), n[0], 110, s, 4, "survivors 2 workers", extra, need)
-    m.stage(c, c01_deep.replay_generated, c, m, dict(w3, KillDilution=8), n[1], 170, s + 1, 7, "survivors 3 workers B=2", extra, need)
+    m.stage(c, c01_deep.replay_generated, c, m, dict(base, KillJob=True, KillDilution=8, MaxKills=2, PubDilution=6), n[0], 110, s, 4, "survivors 2 workers", extra, need)
+    m.stage(c, c01_deep.replay_generated, c, m, dict(w3, KillDilution=8, PubDilution=6), n[1], 170, s + 1, 7, "survivors 3 workers B=2", extra, need)
     c.assumptions += [
         "survivors arm: a call to a killed node hangs (it neither fails nor is delivered), StartCheckpoint calls of the old assembly fail, its "
         "checkpoint acknowledgements are rejected by the job; a worker one half of which ends by itself stops as a whole (workers.Worker) and is "
